@@ -1,5 +1,7 @@
 #!/bin/sh
 # dev helper: every thorough check once, with timing
+# (in a `vp run --with-repo` job the checks read the job's own snapshot of /repo)
+[ -n "$VP_RUN_REPO" ] && export VERIF_REPO="$VP_RUN_REPO"
 for p in C01 C02 C03 C04 C05 C06 C07 C08 C09 C10 C11 C12 C13 C14 C15 C20; do
   s=$(date +%s); out=$(./check $p --tier thorough 2>&1 | tail -1); e=$(date +%s)
   echo "$p $((e-s))s $out"
